@@ -137,6 +137,12 @@ package curve
 //@   modifies scval(s)
 //@   ensures[C15] result == nil ==> len(data) == 32
 //@   summary result == nil ==> scval(s) == sc_of_bytes(bval(data))
+// decred's SetBytes reduces modulo the group order and reports the overflow: the decoder fails exactly on
+// non-canonical encodings, and the receiver holds the reduced value either way (BIP-340 uses this for e)
+//@   summary len(data) == 32 ==> (scval(s) == sc_mod(bval(data)) && (result == nil) == sc_canon(bval(data)))
+//@   summary sc_canon(bval(data)) ==> sc_mod(bval(data)) == sc_of_bytes(bval(data))
+//@ spec fn sc_mod(Int) Int
+//@ spec fn sc_canon(Int) Bool
 //@ func (*Secp256k1Point).UnmarshalBinary
 //@   nopanic[C05,C15]
 //@   requires p != nil
@@ -191,6 +197,8 @@ package curve
 //@   ensures (result1 == nil) == (result0 != nil)
 //@   ensures result1 == nil ==> fresh(result0)
 //@   summary result1 == nil ==> (ptval(result0) == liftx(bval(data)) && even_y(ptval(result0)))
+//@   summary (result1 == nil) == liftx_ok(bval(data))
+//@ spec fn liftx_ok(Int) Bool
 //@ func (*Secp256k1Point).HasEvenY
 //@   nopanic[C05]
 //@   requires p != nil
